@@ -107,6 +107,20 @@ def unit_link_files(eng, nfiles, kinds, settle_in):
         K = int_input(eng, "K")
         eng.assume(z3.And(K >= 0, K < 65536))
 
+        forced = []
+
+        class Watched(Lazy):
+            """a definition nobody used so far: evaluating it (wait reads .final) is recorded and reports an error"""
+            def __init__(self, i):
+                self.__dict__.update(typ="int", size=None, announced=None, idx=i)
+
+            @property
+            def final(self):
+                if self.idx not in forced:
+                    forced.append(self.idx)
+                    eng.path.events.append(("error", "undefined-symbol"))
+                return 0
+
         def c_compile_file(eng_, file, start, link_base_):
             i = len(calls)
             calls.append((file, start, link_base_))
@@ -114,10 +128,12 @@ def unit_link_files(eng, nfiles, kinds, settle_in):
                 eng_.call(eng_.getattr(link_base_["promise"], "settle"), [K], {})
             c, B = chunk_contract(eng_, "F%d" % i, kinds[i])
             finals.append(B)
+            # the file defines a symbol that no statement uses: its value is still pending when the file has been compiled
+            eng_.call(eng_.getattr(eng_.getattr(comp, "symbols"), "__setitem__"), ["unused%d" % i, (Obj("Assignment", name="def%d" % i), Watched(i))], {})
             return c
         comp.attrs["compile_file"] = Builtin("compile_file(contract)", c_compile_file)
         files = [Obj("File", name="file%d" % i) for i in range(nfiles)]
-        eng.I.update(calls=calls, finals=finals, files=files, K=K)
+        eng.I.update(calls=calls, finals=finals, files=files, K=K, forced=forced)
         return eng.call(eng.getattr(comp, "compile_and_link_files"), [files], {})
 
     def post(eng, o):
@@ -139,6 +155,8 @@ def unit_link_files(eng, nfiles, kinds, settle_in):
             eng.prove("file%d-starts-where-the-previous-ends" % i, view(eng, c[1]) == want_base + off)
             off = off + slen(finals[i])
         eng.prove("image-is-the-files'-bytes-in-order", zbytes(code) == (finals[0] if len(finals) == 1 else z3.Concat(*finals)))
+        eng.prove("every-definition-is-evaluated-before-the-call-returns(an error in a symbol nobody uses is reported inside the reporting scope)",
+                  sorted(I["forced"]) == list(range(nfiles)) and len(errors(eng)) == nfiles)
     r = verify(eng, name, run, post, func="compiler.Compiler.compile_and_link_files")
     for o_ in r["obligations"]:
         o_["cfg"] = dict(kind="linkfiles")
